@@ -40,8 +40,10 @@ type FakeServer struct {
 	conns   map[net.Conn]struct{}
 	wg      sync.WaitGroup
 	closed  chan struct{}
-	reqs    atomic.Int64
-	accepts atomic.Int64
+	reqs     atomic.Int64
+	accepts  atomic.Int64
+	frames   atomic.Int64 // interleaved frames received from clients
+	maxFrame atomic.Int64 // largest payload among them
 	log     []string
 	seen    []SeenRequest
 }
@@ -69,6 +71,8 @@ func (s *FakeServer) Start() error {
 
 func (s *FakeServer) Addr() string { return s.ln.Addr().String() }
 
+func (s *FakeServer) Frames() int64   { return s.frames.Load() }
+func (s *FakeServer) MaxFrame() int64 { return s.maxFrame.Load() }
 func (s *FakeServer) Requests() int64 { return s.reqs.Load() }
 func (s *FakeServer) Accepts() int64  { return s.accepts.Load() }
 
@@ -233,7 +237,17 @@ func (s *FakeServer) serve(nc net.Conn) {
 		}
 		req, ok := what.(*base.Request)
 		if !ok {
-			continue // client frames and client responses to our requests
+			// client frames and client responses to our requests
+			if fr, isFrame := what.(*base.InterleavedFrame); isFrame {
+				s.frames.Add(1)
+				for {
+					old := s.maxFrame.Load()
+					if int64(len(fr.Payload)) <= old || s.maxFrame.CompareAndSwap(old, int64(len(fr.Payload))) {
+						break
+					}
+				}
+			}
+			continue
 		}
 		s.reqs.Add(1)
 		s.noteRequest(req)
